@@ -238,6 +238,66 @@ def shard(ctx):
                 ctx.violation(sig, d, {"text": text, "entry": case["entry"], "fv": case["fv"], "indent": indent, "via": via})
 
     run()
+    # deep documents: whatever nesting the parser accepts, the printer has to print ("never raises for parser-produced trees")
+    for i, (shape, depth) in enumerate(DEEP):
+        if i % ctx.nshards == ctx.shard:
+            case = {"deep": depth, "shape": shape}
+            for sig, det in check_deep(case):
+                ctx.violation(sig, det, case)
+            ctx.case(key=("deep", shape, depth), nontrivial=True, sample=case)
+            ctx.event("deep-document:" + shape)
+
+
+DEEP = [(sh, d) for sh in ("fields", "inline-fragments", "list-value", "object-value", "list-type", "input-list-type")
+        for d in (40, 90, 130, 160, 190, 215, 240, 270, 300, 330)]
+
+
+def deep_text(shape, d):
+    if shape == "fields":
+        return "entry", "doc", "{ " + "a { " * d + "n" + " }" * d + " }"
+    if shape == "inline-fragments":
+        return "entry", "doc", "{ " + "... { " * d + "n" + " }" * d + " }"
+    if shape == "list-value":
+        return "entry", "value", "[" * d + "1" + "]" * d
+    if shape == "object-value":
+        return "entry", "value", "{r: " * d + "{k: 1}" + "}" * d
+    if shape == "list-type":
+        return "entry", "type", "[" * d + "Int" + "]" * d
+    return "entry", "doc", "input I { f: " + "[" * d + "Int!" + "]" * d + " = " + "[" * d + "]" * d + " }"
+
+
+def check_deep(case):
+    """print -> parse -> equal tree, on documents nested as deeply as the parser accepts them"""
+    parse, parse_value, parse_type, print_ast, ASTPrinter, SyntaxErr = _lib()
+    _, entry, text = deep_text(case["shape"], case["deep"])
+    fn = {"doc": parse, "value": parse_value, "type": parse_type}[entry]
+    tag = case["shape"]
+    try:
+        node = fn(text, allow_type_system=True)
+    except SyntaxErr:
+        return []   # refused by the parser: C01's business
+    except BaseException as e:  # noqa
+        return []   # C01 reports foreign exceptions of the parser
+    try:
+        t1 = print_ast(node)
+    except BaseException as e:  # noqa
+        # one root cause whatever the nested construct is (the recursive printer needs more stack per level than the parser)
+        return [("C03/deep/print-raises-%s" % type(e).__name__, "shape=%s depth=%d" % (tag, case["deep"]))]
+    try:
+        node2 = fn(t1, allow_type_system=True)
+    except SyntaxErr:
+        # the printed text may nest one parser level more than the source did (indentation does not, brackets do not): the
+        # parser's own depth budget is not the printer's fault unless the source was well inside it
+        return []
+    except BaseException as e:  # noqa
+        return []
+    try:
+        same = _norm(R.lib_to_tree(node)) == _norm(R.lib_to_tree(node2))
+    except RecursionError:
+        return []   # the harness's own tree walk ran out of stack: no verdict
+    if not same:
+        return [("C03/deep/roundtrip-differs/%s" % tag, "depth=%d" % case["deep"])]
+    return []
 
 
 def fuzz_one(text):
@@ -261,6 +321,8 @@ extra_phases = [("atheris", _atheris)]
 
 
 def replay(case):
+    if "deep" in case:
+        return check_deep(case)
     vios, _ = check(case["text"], case.get("entry", "doc"), case.get("fv", False), case.get("indent", 2),
                     case.get("via", "print_ast"))
     return vios
@@ -268,6 +330,8 @@ def replay(case):
 
 def minimise(case, sig):
     from vlib.shrink import ddmin_text
+    if "deep" in case:
+        return case
 
     def has(t):
         try:
